@@ -4,7 +4,7 @@ from . import helpers_rules as H
 from . import alias_rules as A
 
 META = {
-    'claim_added': "Also decided: the cycle pre-check removes the node from the ancestor set on exit, exits early only for scalars/done nodes and visits keys; set_value installs a fresh node on every path; yatiml does not override PyYAML's composer; processing keeps no per-node cache. Round 3: the composed tree is not rewritten before the cycle check and recognition (R18.8); the closed list of node writes of __process_node (R18.9); __process_node writing the node object it was given is reported (R18.10, known finding F19).",
+    'claim_added': "Also decided: the cycle pre-check removes the node from the ancestor set on exit, exits early only for scalars/done nodes and visits keys; set_value installs a fresh node on every path; yatiml does not override PyYAML's composer; processing keeps no per-node cache. Round 3: the composed tree is not rewritten before the cycle check and recognition (R18.8); the closed list of node writes of __process_node (R18.9); __process_node writing the node object it was given is reported (R18.10, known finding F19). Round 6 (E14): caches on the code this property is about are invisible - no value that lives in a memo cell (dict / lazily filled attribute / lru_cache) is modified by the code it is handed to, the key of a cell contains every input its value depends on, no mutable parameter default is modified or handed out; given that, the program is analysed as if every lookup missed.",
     'level': 'other',
     'technique': 'static: dominance and completeness (structural recursion over items, keys and values) of the acyclicity '
                  'pre-check; write-effect closure of recognition; agreement of the tag table written by processing with the accept '
